@@ -19,8 +19,8 @@ from pathlib import Path
 
 VERIF = Path(__file__).resolve().parent.parent
 REPO = Path(os.environ.get("VERIF_REPO", "/repo"))
-EVID = VERIF / "evidence"
-REPLAYS = VERIF / "replays"
+EVID = Path(os.environ.get("VERIF_EVIDENCE_DIR", str(VERIF / "evidence")))
+REPLAYS = Path(os.environ.get("VERIF_REPLAYS_DIR", str(VERIF / "replays")))
 KNOWN = Path(os.environ.get("VERIF_KNOWN", str(VERIF / "known_findings.json")))
 
 LEVELS = {"exploration", "fault_enumeration", "model_checking", "proof", "translation_validation", "other"}
